@@ -109,7 +109,9 @@ def instantiate (now : Nat) (m : InstMsg) : Except Err Coll :=
 
 /-! ## execute -/
 
-/-- `Option<Option<α>>` of `UpdateCollectionInfoMsg`: absent / `Some(None)` / `Some(Some a)` -/
+/-- `Option<Option<α>>` of `UpdateCollectionInfoMsg`: field absent / field `null` / field present.
+The contract only ever sees JSON: a `null` field deserialises to the *outer* `None` (serde's `Option<Option<_>>`),
+so `clear` is indistinguishable from `keep` for both `external_link` and `royalty_info` — found by the correspondence run. -/
 inductive Opt2 (α : Type) where
   | keep | clear | set (a : α)
 deriving Repr
@@ -161,7 +163,7 @@ def updateCollectionInfo (c : Coll) (now : Nat) (sender : Addr) (m : UpdMsg) : E
       else
         let link := match m.link with
           | .keep => c.link
-          | .clear => none
+          | .clear => c.link   -- on the wire `Some(None)` is JSON `null`, which serde reads back as the outer `None`
           | .set l => some l
         if !optUrlValid link then .error .invalid
         else
